@@ -304,6 +304,9 @@ static void child_main(uint64_t first, unsigned batch)
     S->next_case = idx + (uint64_t)HV.nworkers;
   }
   fflush(stdout);
+#ifdef HV_COV
+  { extern void __gcov_dump(void); __gcov_dump(); }   /* children leave through _exit: flush the coverage counters (bin/covreport) */
+#endif
   _exit(0);
 }
 
